@@ -3,6 +3,7 @@
 package hz
 
 import (
+	"strconv"
 	"encoding/json"
 	"flag"
 	"fmt"
@@ -99,6 +100,28 @@ func New() *H {
 }
 
 func (h *H) Thorough() bool { return h.Tier == "thorough" }
+
+// Watch registers an operation that must terminate (used for the few cases that could run away, not per evaluation).
+// If it is still in flight after the limit (VERIF_WATCHDOG seconds, default 90) the violation is recorded and the
+// report written at once: a goroutine spinning in the code under test cannot be interrupted, the process can only exit.
+func (h *H) Watch(key, what string, c interface{}) (done func()) {
+	limit := 90 * time.Second
+	if v := os.Getenv("VERIF_WATCHDOG"); v != "" {
+		if n, err := strconv.Atoi(v); err == nil && n > 0 {
+			limit = time.Duration(n) * time.Second
+		}
+	}
+	ch := make(chan struct{})
+	go func() {
+		select {
+		case <-ch:
+		case <-time.After(limit):
+			h.Violate(key, fmt.Sprintf("%s: still running after %v", what, limit), c)
+			h.Finish()
+		}
+	}()
+	return func() { close(ch) }
+}
 
 // Expired reports whether the time budget is used up; engines poll it between cases.
 func (h *H) Expired() bool {
